@@ -95,6 +95,8 @@ static void case_reset(void)
   mon_enable_idx = mon_enable_fd = mon_enable_net = mon_enable_timer = 1;
   net_unique_names                                                   = 1;
   sim_no_subms_jitter                                                = 0;
+  sim_zerolen_with_udp_reply                                         = 0;
+  sim_fifo_events                                                    = 0;
   memset(&app_sched, 0, sizeof(app_sched));
   app_sched.max_steps = 20000;
   case_fp             = VH_FNV_INIT;
